@@ -32,6 +32,7 @@ type Profile struct {
 	Styles               int    // 0 random, 1 always, 2 never
 	Title                bool   // may set a metadata title
 	BlockBias            string // "" | "tables" | "inline" | "lists" | "headings"
+	BlockContainers      bool   // paragraphs inside a block-level container (w:sdt / text:section)
 }
 
 // Symbols are the characters used for KSym items; none of them is used by
@@ -75,7 +76,12 @@ func Gen(r *rand.Rand, tk *fw.Tokens, p Profile) *Doc {
 				d.Feature("para.empty")
 			} else {
 				pp := g.para(paraOpts{breaks: p.Break, lead: true})
-				d.Blocks = append(d.Blocks, Block{Kind: BPara, Para: &pp})
+				blk := Block{Kind: BPara, Para: &pp}
+				if p.BlockContainers && r.Intn(10) == 0 {
+					blk.Wrap = "container"
+					d.Feature("block=container")
+				}
+				d.Blocks = append(d.Blocks, blk)
 			}
 		case BHeading:
 			h := g.heading()
@@ -153,11 +159,11 @@ func (g *gen) pickBlockKind() BlockKind {
 }
 
 type paraOpts struct {
-	breaks   bool // line breaks allowed
-	lead     bool // specials may come first
-	simple   bool // text only, 1-2 runs
-	cell     bool
-	plain    bool // no inline containers
+	breaks bool // line breaks allowed
+	lead   bool // specials may come first
+	simple bool // text only, 1-2 runs
+	cell   bool
+	plain  bool // no inline containers
 }
 
 func (g *gen) text() Item {
